@@ -732,9 +732,11 @@ static bool PumpPackets(AbstractMessageIOGateway & gw, const std::vector<Bytes> 
    while (!q.empty() && guard-- > 0) { const io_status_t r = gw.DoInput(rx); if (r.IsError()) { err = true; break; } }
    gw.SetDataIO(DataIORef()); return err;
 }
+// A zlib body may legitimately inflate to more than SetMaxIncomingMessageSize() allows (that limit is on the bytes received), but since F57 never to more than
+// 1100 x its own length: only a size word within that ratio still excuses a request above the limit; anything larger is judged.
 static bool ZlibRawSizeExplains(const std::vector<Bytes> & fed, size_t req)
 {
-   for (size_t u = 0; u < fed.size(); u++) { const Bytes & b = fed[u]; for (size_t o = 0; o + 8 <= b.size(); o++) { const uint32_t mg = rd32(b, o); if (mg != ZMAGIC_DEP && mg != ZMAGIC_IND) continue; const uint32_t w = rd32(b, o + 4); if (req >= w && req <= (size_t)w + 64) return true; } }
+   for (size_t u = 0; u < fed.size(); u++) { const Bytes & b = fed[u]; for (size_t o = 0; o + 8 <= b.size(); o++) { const uint32_t mg = rd32(b, o); if (mg != ZMAGIC_DEP && mg != ZMAGIC_IND) continue; const uint32_t w = rd32(b, o + 4); if (req >= w && req <= (size_t)w + 64 && (uint64_t)w <= 1100ULL * (uint64_t)(b.size() - o)) return true; } }
    return false;
 }
 static void CheckGatewayAlloc(int e, int v, bool limit, const std::vector<Bytes> & fed)
@@ -751,7 +753,7 @@ static void CheckGatewayAlloc(int e, int v, bool limit, const std::vector<Bytes>
    else bound = 64 * N + 1024 * 1024;
    if (single > (size_t)LIMIT_L + 65536 && bound == (size_t)-1) vh::stat("giant_request_without_limit");
    if (single > bound || peak > (bound == (size_t)-1 ? bound : bound + 64 * N + 1024 * 1024)) {
-      if (ZlibRawSizeExplains(fed, single)) { vh::stat("unspecified_zlib_rawsize_request_above_limit"); return; }   // the inflated size is not what SetMaxIncomingMessageSize() limits
+      if (ZlibRawSizeExplains(fed, single)) { vh::stat("unspecified_zlib_inflated_size_within_1100x_but_above_limit"); return; }
       Fail(std::string("alloc-bound|") + en, vh::fmt("%zu input bytes, %s: peak live delta %zu, largest granted request %zu, largest refused request %zu, allowed %zu", N, limit ? "SetMaxIncomingMessageSize(1 MiB)" : "default limits", peak, gM.a.largest, gM.a.refused, bound));
    }
 }
@@ -849,7 +851,7 @@ static void FeedZcodec(const Base & B, const std::vector<Bytes> & units, const M
       if (ok[i]) { anyOk = true; if (api != ZA_UTIL_INFLATEMESSAGE && api < ZA_READINFLATEWRITE && (sizes[i] < 0 || outs[i].size() != (size_t)sizes[i])) { Fail("zcodec|ok-wrong-size", vh::fmt("%s: OK with %zu bytes although the header declares %d", ZANAME[api], outs[i].size(), sizes[i])); return; } }
       // a cut or junk-extended buffer may only be accepted with exactly the bytes of the original (e.g. when just the trailing sync marker is missing)
       if (ok[i] && (int)i == mu.unit && i < B.raws.size() && api != ZA_UTIL_INFLATEMESSAGE && (mu.family == "truncation" || mu.desc.find("trailing junk") != std::string::npos) && outs[i] != B.raws[i] && !(api >= ZA_READINFLATEWRITE && i > 0))
-         { if (api >= ZA_READINFLATEWRITE && outs[i].size() > B.raws[i].size() && outs[i].compare(0, B.raws[i].size(), B.raws[i]) == 0) { Fail("zcodec|stream-writes-beyond-declared-size", vh::fmt("%s returned OK but wrote %zu bytes for a header that declares %zu (the declared bytes are right, %zu more follow)", ZANAME[api], outs[i].size(), B.raws[i].size(), outs[i].size() - B.raws[i].size())); return; }
+         { if (api >= ZA_READINFLATEWRITE && outs[i].size() > B.raws[i].size() && outs[i].compare(0, B.raws[i].size(), B.raws[i]) == 0) { vh::stat("unspecified_zcodec_stream_api_output_beyond_declared_size"); continue; }   // the stream form reads (and inflates, and writes) whatever follows the buffer in the stream: the declared bytes are right, more follow
            Fail("zcodec|ok-wrong-bytes", vh::fmt("%s: unit %zu accepted with %zu bytes that are not the %zu bytes it was deflated from", ZANAME[api], i, outs[i].size(), B.raws[i].size())); return; }
       if (valid) { Bytes want = B.raws[i]; bool expectOk = true; if (api == ZA_UTIL_INFLATEMESSAGE) { if (B.variant % 6 == 4) wr32(want, 4, 0x7a6d7367u); else expectOk = false; }
          if (expectOk && i > 0 && api == ZA_READINFLATEWRITE && (!ok[i] || outs[i] != want)) { vh::stat("unspecified_zcodec_stream_api_on_a_later_dependent_buffer"); break; }   // the stream form stops reading as soon as the declared size is out; the unread tail of a sync-flushed buffer (its empty stored block) never reaches the inflater, so a following DEPENDENT buffer cannot be expected to work
@@ -1018,6 +1020,13 @@ static void Regress2(long k)
         Bytes out2; if (ZReadInflateWrite(NULL, in, true, out2)) Fail("regress-F56", "utility ReadAndInflateAndWrite returned OK");
         if (decl[d] < 1000000) { Exact ex(in); if (codec.Inflate(ex.p, ex.n)() != NULL) Fail("regress-F56", "Inflate returned a buffer"); ByteBuffer bb; if (codec.Inflate(ex.p, ex.n, bb).IsOK()) Fail("regress-F56", "Inflate(buf) returned OK"); }
         const Bytes good = ZHeader(true, 200) + comp; Exact gx(good); ByteBufferRef r = codec.Inflate(gx.p, gx.n); if (r() == NULL || Bytes((const char *)r()->GetBuffer(), r()->GetNumBytes()) != raw) Fail("regress-F56", "the codec does not inflate a valid independent buffer afterwards"); } }
+   RegressCase("F57: 8-byte codec header declaring 2 GiB (and other sizes beyond 1100 x the input): Inflate x2, InflateByteBuffer, InflateMessage, zlib gateway bodies must fail without a large request", k++);
+   { static const uint32_t decl[] = {0x7fffffffu, 0x40000000u, 0x20000000u, 12000000u, 9 * 1100 + 1101}; for (int d = 0; d < 5; d++) for (int indep = 0; indep < 2; indep++) for (int tail = 0; tail < 2; tail++) {
+        const Bytes in = ZHeader(indep != 0, decl[d]) + Bytes(tail ? 8 : 0, '\0'); Exact ex(in); ZLibCodec codec(6); ByteBuffer bb; MessageRef zm = GetMessageFromPool(1); (void)zm()->AddFlat(MUSCLE_ZLIB_FIELD_NAME, GetByteBufferFromPool(ex.n, ex.p));
+        MBegin(); const bool a = codec.Inflate(ex.p, ex.n)() != NULL; const bool b = codec.Inflate(ex.p, ex.n, bb).IsOK(); const bool c = InflateByteBuffer(ex.p, ex.n)() != NULL; const bool e = InflateMessage(zm)() != NULL; MEnd();
+        if (a || b || c || e) Fail("regress-F57", vh::fmt("declared %u in %u bytes accepted (%d%d%d%d)", decl[d], ex.n, (int)a, (int)b, (int)c, (int)e));
+        if (gMeasure && gM.a.worst() > 1100 * (size_t)ex.n + 1024 * 1024) Fail("regress-F57", vh::fmt("declared %u in %u bytes: request of %zu bytes", decl[d], ex.n, gM.a.worst()));
+        Bytes s; put32(s, (uint32_t)in.size()); put32(s, MUSCLE_MESSAGE_ENCODING_ZLIB_6); s += in; for (int kind = 0; kind < 2 && !caseBad; kind++) { MessageIOGateway * gw = kind ? new TemplatingMessageIOGateway : new MessageIOGateway; AbstractMessageIOGatewayRef ref(gw); gw->SetMaxIncomingMessageSize(LIMIT_L); Rx rx(DG_MSG); MBegin(); (void)PumpStream(*gw, s, rx, true); MEnd(); if (rx.n != 0) Fail("regress-F57", "gateway delivered a Message"); if (gMeasure && std::max(gM.a.largest, gM.a.refused) > (size_t)LIMIT_L + 65536) Fail("regress-F57", vh::fmt("gateway kind %d: request of %zu bytes for a %zu-byte zlib body declaring %u", kind, std::max(gM.a.largest, gM.a.refused), in.size(), decl[d])); } } }
    RegressCase("TelnetPlainTextMessageIOGateway: Reset() inside a telnet sub-negotiation / command, then a valid line", k++);
    { static const char * const pre[] = {"\xff\xfa", "\xff", "\xff\xfb", "abc\xff\xfa\x01\x02"}; for (int i = 0; i < 4; i++) { TelnetPlainTextMessageIOGateway gw; Rx rx(DG_TEXT); (void)PumpStream(gw, pre[i], rx, true); gw.Reset(); Rx rx2(DG_TEXT); (void)PumpStream(gw, "hello\r\n", rx2, true); if (rx2.digest != "hello\n") Fail("regress-telnet-reset", vh::fmt("after [%s] and Reset() the line 'hello' arrives as %zu digest bytes", vh::hex(pre[i], strlen(pre[i])).c_str(), rx2.digest.size())); } }
    RegressCase("WebSocketMessageIOGateway: Reset() inside a frame header / payload, then a valid frame stream", k++);
